@@ -10,7 +10,7 @@ use arrow_buffer::{Buffer, ScalarBuffer};
 // Contract (C03, single attempt): shift(array, k) on an Int32 array of 3 rows (no nulls), k = +1:
 // output row i == input row i-1 for i >= 1 and null for i == 0. shift has no typed core: it is
 // `&dyn Array -> ArrayRef` built from new_null_array + slice + concat (all dyn / ArrayData level).
-// @unit name=shift_i32_n3_plus1 props=C03 kind=bounded bound=rows=3_offset=+1 fns=shift tier=thorough timeout=900 mem=10 note=not_confirmed_at_checkpoint
+// @unit name=shift_i32_n3_plus1 props=C03 kind=bounded bound=rows=3_offset=+1 fns=shift timeout=900 mem=10 tier=thorough note=not_confirmed_not_run
 #[kani::proof]
 #[kani::unwind(8)]
 #[kani::stub(alloc::fmt::format, stub_format)]
